@@ -15,6 +15,13 @@ CFG = {'lean_modules': ['ObiVerif.Props.C14'],
          'comment and empty lines, no final line break, final \\r, + signs and leading zeros, extra fields, decoy names) with the declared tree as oracle, one in three '
          'damaged in one of 19 ways (duplicate taxid, bare quote, field count change, not-a-number, missing field, blank line, empty/short/comment/over-long line in '
          'names.dmp, unknown parent, damaged merged.dmp, taxid 2^63-1 / 2^63, \\v \\f \\r blanks) where the loader model is the reference; 30 hand-written dump cases; '
+         'second pass: 36 query kinds (+ vf sp hq sw sn tr: IsAValidTaxon(true), Taxonomy.IsSubCladeOf / HasRequiredRank closures, MakeSetSpecies/Genus/Family/TaxonAtRank workers and '
+         'their Set… methods, SetScientificName, SetTaxonomicRank called directly; wlo: Taxonomy.LCA run 300 times on a map in which one taxon has a zero and a positive count under two keys, '
+         'the set of answers over the map orders); sequence taxids drawn alias-heavy (35% merged id incl. alias of alias, 10% unknown, 10% root, 5% none); every n <= 4 shape with aliases x every '
+         'carried taxid (nodes, merged ids, unknown, none) x every clade (nodes, merged ids) x all sequence level queries (21 cases of 100-400 queries); alias oracle on every sequence query whose '
+         'taxid is a merged id (rerun with the current taxid, answers must be equal: ~6600 per quick run, ~1100 through alias chains); merged_taxid maps with several keys for one taxon carry different '
+         'positive counts; one dump case in three is in the exact NCBI layout and flagged L: the model checks that nodes.dmp / merged.dmp are byte for byte renderNodes / renderMerged of the '
+         'declared tree (so that loadDump_rendered applies to the very files the real loader reads); taxd cases up to 300 nodes are loaded by the model from its own rendering; '
          'non-trivial = distinct well-formed case line',
  'technique': 'Lean 4 theorems on a functional model of the obitax queries for every well-formed taxonomy (any size, any taxids, any ranks, any alias table) + '
               'differential correspondence of the model with the real obitax / obigrep / obiannotate code on synthetic taxonomies + naive ancestor-set oracle',
@@ -31,33 +38,49 @@ CFG = {'lean_modules': ['ObiVerif.Props.C14'],
                'whose csv records are the declarations builds exactly the declared nodes map - last line of a taxid wins, every line when taxids are distinct, no other node, ids complete - and the '
                'alias table AddNewAlias*(merged.dmp in file order), resolution always landing on a node of the dump; a record with a missing or non-numeric field panics), '
                'weightedLca_threshold_one (Taxonomy.LCA at threshold 1.0 on a non-empty map of known taxids with positive counts = left fold of TaxNode.LCA over the '
-               'taxa present = the deepest common ancestor of all of them, independent of weights and order), weightedLca_unknown, weightedLca_empty. The model is '
+               'taxa present = the deepest common ancestor of all of them, independent of weights and order), weightedLca_unknown, weightedLca_empty. '
+               'Second pass: rendered_csv_records / loadDump_rendered / rendered_dump_is_declared_tree (byte level: for every list of declarations whose fields hold no |, line feed or double quote, taxids < 2^63, '
+               'ranks / names / classes without blank at either end, a constant number of columns, names.dmp lines within 4096 bytes, the files rendered in the NCBI layout - fields separated by \\t|\\t, lines '
+               'ended by \\t|\\n - are read by the csv reader to the end, record for record, and LoadNCBITaxDump builds exactly the declared nodes, scientific names and merged ids: parse (render decl) = decl, '
+               'so loadDump_declared applies to rendered dumps unconditionally); taxon_idempotent, isValidTaxon_alias / _unknown, isSubCladeOfPred_spec / _eq_restrictTo, hasRequiredRankPred_eq_requireRanks, '
+               'seq_predicates_alias, seq_predicates_clade_alias, seq_annotations_alias, seq_annotations_spec, weightedLca_alias (every sequence predicate / method / worker of sequence_predicate.go, sequence_methods.go, '
+               'sequence_workers.go and the obigrep filters answer for a sequence carrying a merged taxid - or a clade given by a merged taxid - exactly what they answer for the current taxid; IsAValidTaxon(true) rewrites '
+               'the merged taxid into the current one and is then a fixed point); weightedLca_counts_partial / weightedLca_order_free_partial / taxonomicDistribution_last_wins (zero counts are ignored - all zero: the root -, '
+               'merged taxids and several keys for one taxon are harmless and the answer is independent of the Go map order as soon as the keys of one taxon agree on count > 0; the distribution keeps the count of the key met last) '
+               'with weightedLca_order_counterexample for the excluded case. The model is '
                'tied to pkg/obitax, obigrep/options.go and the obiannotate workers by running both on the same synthetic taxonomies (API-built and loaded from dump '
                'directories), all rooted labelled trees up to 6 nodes exhaustively, random trees to 7000 nodes, with an independent ancestor-set oracle on the real code.',
  'level_note': 'Trusted: Lean kernel; the transcription Model/Tax.lean (pointer comparisons of TaxNode read as taxid comparisons; the float test rmax >= 1.0 read as '
                'the integer test total > 0 and weighMax = total); Model/TaxLoad.lean (functional model of encoding/csv as configured by the loader, of bufio.ReadLine, strings.Split/TrimSpace, strconv.Atoi '
-               'on ASCII bytes, of regexp TX:(\\d+) as leftmost scan). Tied by correspondence only (no theorem): the byte level of the loader (file bytes -> csv records: line splitting, \\r\\n, comments, '
-               'empty lines, field trimming, ErrBareQuote / ErrFieldCount ending the loading silently, names.dmp lines and the 4096-byte limit) - loadDump_declared starts from the csv records; the theorem '
-               '"parse (render decl) = decl" for the canonical NCBI layout is not proved, only tested (example in Props/C14.lean, 200+ generated layouts per run); scientific names / lca_name / rank_name '
-               'values, AddLCAWorker = Taxonomy.LCA. Explicitly not modelled (outcome unmodelled, never generated): csv fields starting with a double quote, negative taxids, non-ASCII bytes in dump files. '
+               'on ASCII bytes, of regexp TX:(\\d+) as leftmost scan). Model/TaxSeq.lean (sequence level closures / methods / workers as functions of the taxid attribute), Model/TaxRender.lean (the NCBI layout; the L-flagged dump cases check the '
+               'file bytes against it). Tied by correspondence only (no theorem): the byte level of the loader on layouts OTHER than the NCBI one (no blanks / extra blanks, \\r\\n, comments, empty lines, no final line '
+               'break, + signs and leading zeros: 100+ generated layouts per run with the declared tree as oracle) and on damaged files (ErrBareQuote / ErrFieldCount ending the loading silently, the 4096-byte limit: model = '
+               'reference); lca_name value, AddLCAWorker = Taxonomy.LCA. PARTIAL: weightedLca_counts_partial needs hcons (the keys of one taxon agree on count > 0): TaxonomicDistribution assigns instead of adding, so for a map '
+               'holding a merged taxid with count 0 and its current taxid with a positive count (or the converse) the answer of the real code changes with the map iteration order (shown on the real code by the wlo queries, '
+               'stat finding:wl-dup-order, Fail wlo.order when VERIF_C14_FINDINGS is set; proposed one-line fix notes/patches/C14-taxdist-sum.proposed.diff, not applied; proposed known finding). Decided out of scope (observations, '
+               'no oracle): the loaders stop silently on a csv error keeping the records read so far (a file with a csv syntax error is not the rendering of any taxonomy - rendered_csv_records shows every rendering is read to the '
+               'end -, the queries on the truncated taxonomy agree with the truncated tree, model = reference on 19 damage kinds); AddNewName drops the first alternate name of a taxon and indexes names under the taxid given '
+               '(no query of the statement reads alternate names); SetScientificName writes the attribute scienctific_name (sic); IsAValidTaxon(true) on a taxonomy whose root is taxid 0 stores 1 (SetTaxid), modelled as is. Explicitly not modelled (outcome unmodelled, never generated): csv fields starting with a double quote, negative taxids, non-ASCII bytes in dump files. '
                'Not covered: thresholds below 1.0 '
-               '(outside the statement; map-order dependent on ties), zero/duplicate-key weight overwriting in TaxonomicDistribution beyond equal weights, name-based '
-               'filters (IFilterOnName, AddNewName alternate names - observation: AddNewName drops the first alternate name of every taxon from alternatenames, outside the statement), ITaxonSet.Split and '
+               '(outside the statement; map-order dependent on ties), name-based '
+               'filters (IFilterOnName), ITaxonSet.Split and '
                'concurrent consumption of an iterator (the filters are modelled drained by one consumer), taxonomies that are not well formed (parent cycles hang, two roots make '
                'TaxNode.LCA index out of range — modelled as outcomes hang / panic, the latter exercised).',
  'trusted_base': LEAN_TB + ['Go map semantics (one TaxNode object per taxid after ReindexParent, so pointer comparisons are taxid comparisons)',
                             'IEEE-754 double division of integers below 2^53 (w/total = 1.0 iff w = total), used to replace the float test rmax >= 1.0 by an integer test',
                             'naive ancestor-set oracle in the harness',
+                            'Model/TaxRender.lean is the NCBI layout (fields separated by tab bar tab, lines ended by tab bar line feed); checked byte for byte against the files of the L-flagged dump cases',
                             'Go standard library behaviour transcribed in Model/TaxLoad.lean: encoding/csv Reader (Comma |, Comment #, TrimLeadingSpace), bufio.Reader.ReadLine (4096), strings.TrimSpace, strconv.Atoi, regexp leftmost match'],
  'modelled': 'pkg/obitax taxonomy.go (Taxon, AddNewAlias, ReindexParent, RankList), path.go (Path, TaxonAtRank), lca.go (TaxNode.LCA, TaxonomicDistribution, '
-             'Taxonomy.LCA at threshold 1.0), issuubcladeof.go (IsSubCladeOf), taxon.go (HasRankDefined), sequence_predicate.go, sequence_methods.go '
-             '(SetTaxonAtRank, SetPath), obigrep/options.go (CLIRestrictTaxonomyPredicate, CLIAvoidTaxonomyPredicate, CLIHasRankDefinedPredicate, '
+             'Taxonomy.LCA at threshold 1.0), issuubcladeof.go (IsSubCladeOf), taxon.go (HasRankDefined), sequence_predicate.go (IsAValidTaxon with and without auto-correction, IsSubCladeOf, IsSubCladeOfSlot, HasRequiredRank), sequence_methods.go '
+             '(SetTaxonAtRank, SetSpecies, SetGenus, SetFamily, SetPath, SetScientificName, SetTaxonomicRank), sequence_workers.go (MakeSetTaxonAtRankWorker, MakeSetSpecies/Genus/FamilyWorker, MakeSetPathWorker), '
+             'obiannotate AddScientificNameWorker / AddTaxonRankWorker, obigrep/options.go (CLIRestrictTaxonomyPredicate, CLIAvoidTaxonomyPredicate, CLIHasRankDefinedPredicate, '
              'CLITaxonomyFilterPredicate); ncbitaxdump/read.go (loadNodeTable, loadNameTable scientific names, loadMergedTable, LoadNCBITaxDump from the file bytes), taxonomy.go Taxon(string) and '
              'IsSubCladeOfSlot on string attributes, iterator.go / filter_on_subclade_of.go / filter_on_rank.go / issuubcladeof.go IsBelongingSubclades (drained), taxonslice.go String; exercised by the '
              'harness without a model of their own: AddLCAWorker, obiannotate.AddTaxonAtRankWorker name annotations, alternate names',
  'assumptions': ['the taxonomy is well formed: exactly one node is its own parent, every parent taxid is a node, every node reaches the root (a parent cycle '
                  'makes the Go loops spin forever: outcome hang of the model, never executed on the real code)',
-                 'weights of a merged_taxid map are >= 0 and below 2^53; keys resolving to the same node carry the same weight (TaxonomicDistribution '
-                 'overwrites instead of adding, in map order)',
+                 'weights of a merged_taxid map are >= 0 and below 2^53; keys resolving to the same node agree on weight > 0 (TaxonomicDistribution '
+                 'overwrites instead of adding, in map order); the wlo queries explore the maps that do not',
                  'dump files are ASCII, no csv field starts with a double quote, taxids are non-negative (else the loader model answers unmodelled)',
                  'threshold of the weighted LCA is exactly 1.0 (--lca-error 0); lower thresholds depend on the map iteration order on ties and are outside the statement']}
